@@ -42,6 +42,7 @@ type Contract struct {
 	Requires []Clause
 	Ensures  []Clause
 	Modifies []string
+	ModRaw   []string
 	HasMod   bool
 	Loops    map[int]*LoopSpec
 	Anchors  []AnchorClause
@@ -51,6 +52,7 @@ type Contract struct {
 	NoSafety bool
 	Lets     []Clause // named abbreviations: label = expr (macro)
 	Splits   []Clause // case-split conditions (entry state) applied to every postcondition
+	Ghosts   []Clause // ghost locals: name = initial value (entry state)
 	Cases    []Clause // list of cases (entry state); each postcondition is proved per case, plus exhaustiveness
 	File     string
 	Line     int
@@ -66,6 +68,11 @@ type ContractSet struct {
 	Order   []*Contract
 	Pools   []PoolSpec
 	Sealed  []string
+	Guarded map[string][]string
+	Chans   map[string][]Clause
+	NeverClosed map[string]bool
+	HeapInvs    map[string][]Clause
+	GlobalInvs  map[string][]Clause // trusted facts about package variables that are only assigned during initialisation
 	Types   map[string][]Clause // type invariants by type name
 	Macros  map[string]Macro
 	Externs map[string]*Contract // stubs for external functions by full name
@@ -79,7 +86,7 @@ type Macro struct {
 var reFunc = regexp.MustCompile(`^func\s+(.+)$`)
 
 func ParseContracts(files map[string]string) (*ContractSet, error) {
-	cs := &ContractSet{ByFunc: map[string]*Contract{}, Types: map[string][]Clause{}, Macros: map[string]Macro{}, Externs: map[string]*Contract{}}
+	cs := &ContractSet{HeapInvs: map[string][]Clause{}, GlobalInvs: map[string][]Clause{}, NeverClosed: map[string]bool{}, Chans: map[string][]Clause{}, Guarded: map[string][]string{}, ByFunc: map[string]*Contract{}, Types: map[string][]Clause{}, Macros: map[string]Macro{}, Externs: map[string]*Contract{}}
 	for file, pkg := range files {
 		f, err := os.Open(file)
 		if err != nil {
@@ -132,6 +139,33 @@ func ParseContracts(files map[string]string) (*ContractSet, error) {
 			}
 			word, rest := splitWord(body)
 			switch word {
+			case "chan":
+				// chan <Type.field>: <invariant over self>  (assumed for values received from that channel)
+				k, inv, ok := strings.Cut(rest, ":")
+				if !ok {
+					return nil, fmt.Errorf("%s:%d: chan needs field: invariant", file, ln)
+				}
+				k = strings.TrimSpace(k)
+				cs.Chans[k] = append(cs.Chans[k], Clause{Label: "chan", Expr: strings.TrimSpace(inv), Line: ln, File: file})
+				last = &cs.Chans[k][len(cs.Chans[k])-1].Expr
+				continue
+			case "neverclosed":
+				for _, k := range strings.Fields(rest) {
+					cs.NeverClosed[k] = true
+				}
+				continue
+			case "guarded":
+				// guarded <lock field key>: <heap keys havocked when the lock is taken>
+				lk, fields, ok := strings.Cut(rest, ":")
+				if !ok {
+					return nil, fmt.Errorf("%s:%d: guarded needs lock: fields", file, ln)
+				}
+				for _, f := range strings.Split(fields, ",") {
+					if f = strings.TrimSpace(f); f != "" {
+						cs.Guarded[strings.TrimSpace(lk)] = append(cs.Guarded[strings.TrimSpace(lk)], f)
+					}
+				}
+				continue
 			case "sealed":
 				cs.Sealed = append(cs.Sealed, strings.Fields(rest)...)
 				continue
@@ -170,6 +204,20 @@ func ParseContracts(files map[string]string) (*ContractSet, error) {
 				_ = mp
 				// continuation lines are rare for macros; re-store at the end of file parse
 				defer func(n string, p *string, ps []string) { cs.Macros[n] = Macro{ps, *p} }(name, last, ps)
+				continue
+			case "heapinvariant":
+				// heapinvariant T label: expr over self  (holds for every object of type T in the heap)
+				tn, r2 := splitWord(rest)
+				lab, ex := cutLabel(r2)
+				cs.HeapInvs[tn] = append(cs.HeapInvs[tn], Clause{lab, ex, ln, file})
+				last = &cs.HeapInvs[tn][len(cs.HeapInvs[tn])-1].Expr
+				continue
+			case "globalinvariant":
+				// globalinvariant G label: expr over self (the value of package variable G, never assigned after init)
+				tn, r2 := splitWord(rest)
+				lab, ex := cutLabel(r2)
+				cs.GlobalInvs[tn] = append(cs.GlobalInvs[tn], Clause{lab, ex, ln, file})
+				last = &cs.GlobalInvs[tn][len(cs.GlobalInvs[tn])-1].Expr
 				continue
 			case "type":
 				// type T invariant label: expr
@@ -229,11 +277,8 @@ func ParseContracts(files map[string]string) (*ContractSet, error) {
 				last = &cur.Lets[len(cur.Lets)-1].Expr
 			case "modifies":
 				cur.HasMod = true
-				for _, m := range splitTop(rest, ',') {
-					if m = strings.TrimSpace(m); m != "" && m != "nothing" {
-						cur.Modifies = append(cur.Modifies, m)
-					}
-				}
+				cur.ModRaw = append(cur.ModRaw, rest)
+				last = &cur.ModRaw[len(cur.ModRaw)-1]
 			case "loop":
 				// loop N: unroll K | invariant label: e | decreases e
 				ns, r2, ok := strings.Cut(rest, ":")
@@ -275,10 +320,35 @@ func ParseContracts(files map[string]string) (*ContractSet, error) {
 					last = &cur.Anchors[len(cur.Anchors)-1].Expr
 					continue
 				}
+				if strings.HasPrefix(word, "ghost@") {
+					// ghost@call:f#k name = expr
+					name, ex, ok := strings.Cut(rest, "=")
+					if !ok {
+						return nil, fmt.Errorf("%s:%d: ghost@ needs name = expr", file, ln)
+					}
+					cur.Anchors = append(cur.Anchors, AnchorClause{"ghost", word[6:], Clause{strings.TrimSpace(name), strings.TrimSpace(ex), ln, file}})
+					last = &cur.Anchors[len(cur.Anchors)-1].Expr
+					continue
+				}
+				if word == "ghost" {
+					// ghost name = init
+					name, ex, ok := strings.Cut(rest, "=")
+					if !ok {
+						return nil, fmt.Errorf("%s:%d: ghost needs name = init", file, ln)
+					}
+					cur.Ghosts = append(cur.Ghosts, Clause{strings.TrimSpace(name), strings.TrimSpace(ex), ln, file})
+					continue
+				}
 				return nil, fmt.Errorf("%s:%d: unknown directive %q", file, ln, word)
 			}
 		}
 		f.Close()
+	}
+	for _, c := range cs.Order {
+		finishModifies(c)
+	}
+	for _, c := range cs.Externs {
+		finishModifies(c)
 	}
 	return cs, nil
 }
@@ -340,4 +410,15 @@ func splitTop(s string, sep byte) []string {
 	}
 	out = append(out, s[start:])
 	return out
+}
+
+func finishModifies(c *Contract) {
+	for _, raw := range c.ModRaw {
+		for _, m := range splitTop(raw, ',') {
+			if m = strings.TrimSpace(m); m != "" && m != "nothing" {
+				c.Modifies = append(c.Modifies, m)
+			}
+		}
+	}
+	c.ModRaw = nil
 }
